@@ -42,19 +42,23 @@ def table_seeds(log):
     key=lambda k:(k.split('-')[0],int(k.split('-')[1]))
     return "\n".join(rows+[got[k] for k in sorted(got,key=key)])
 def table_safe(log):
-    rows=["| change | summary (from the sub-agent) | repository suite | checks that did not exit 0 |","|---|---|---|---|"]
-    if not os.path.exists(log): return "(no log)"
+    rows=["| change | summary (from the sub-agent) | repository suite | checks that did not exit 0 (all runs) |","|---|---|---|---|"]
+    logs=[x for x in log.split(',') if os.path.exists(x)]
+    if not logs: return "(no log)"
     got={}
-    for l in open(log):
-        if not l.startswith('patch='): continue
-        m=re.match(r"patch=\S*safe_changes/(\w+)/patch.diff (.*?) \| (.*)",l.strip())
-        if not m: continue
-        try: summ=json.load(open(root+'/safe_changes/%s/meta.json'%m.group(1))).get('summary','')
-        except Exception: summ=''
-        rest=m.group(3)
-        alarms=re.sub(r"\s*\|?\s*alarms=\d+","",rest).strip().strip('|').strip()
-        got[m.group(1)]="| %s | %s | %s | %s |"%(m.group(1),summ.replace('|','/')[:260],m.group(2),alarms.replace('|','/').replace('[','').replace(']','') or 'none')
-    return "\n".join(rows+[got[k] for k in sorted(got)])
+    for lg in logs:
+        for l in open(lg):
+            if not l.startswith('patch='): continue
+            m=re.match(r"patch=\S*safe_changes/(\w+)/patch.diff (.*?) \| (.*)",l.strip())
+            if not m: continue
+            try: summ=json.load(open(root+'/safe_changes/%s/meta.json'%m.group(1))).get('summary','')
+            except Exception: summ=''
+            alarms=re.sub(r"\s*\|?\s*alarms=\d+","",m.group(3)).strip().strip('|').strip()
+            e=got.setdefault(m.group(1),[summ.replace('|','/')[:260],m.group(2),set()])
+            for a in alarms.split('|'):
+                a=a.strip()
+                if a: e[2].add(re.sub(r"\[|\]","",a).split(';')[0])
+    return "\n".join(rows+["| %s | %s | %s | %s |"%(k,got[k][0],got[k][1],"; ".join(sorted(got[k][2])) or 'none') for k in sorted(got)])
 def put(s,name,body):
     b="<!-- BEGIN %s -->"%name; e="<!-- END %s -->"%name
     if b not in s: return s
